@@ -85,3 +85,53 @@ Theorem c01_code_wpa_info_safe : forall buf start rho,
 Proof. exact code_wpa_info_safe. Qed.
 Print Assumptions c01_code_wpa_info_safe.
 
+(* ---- libwifi_parse_data AS TRANSLATED from the source on this run (Gen/Sites.v): for every frame object the run returns, the output object is cleared first (so its prior
+   contents play no part), the answer and every call made are functions of the frame's type, flags and lengths and of malloc's answer alone, and it agrees with Model/Frame.v parse_data ---- *)
+From Coq Require Import String.
+From LW Require Import Base.Bytes Base.CExpr Gen.Sites Spec.CodeSpec Model.Frame Proofs.CodeSmall.
+Local Open Scope string_scope.
+Local Open Scope list_scope.
+Local Open Scope Z_scope.
+
+(* every exit of the data parser *)
+Theorem c01_code_parse_data : forall rho ty fl len hl b q m,
+  0 <= ty < 2 ^ 31 -> 0 <= fl < 65536 -> 0 <= hl <= len -> len < 2 ^ 64 -> 0 <= b < 2 ^ 64 ->
+  rho "ret:malloc" = q -> 0 <= q < 2 ^ 64 ->
+  let n := len - hl in
+  let qos := Z.testbit fl 1 in
+  let t0 := [("memset", [wrap u64 (rho "data"); 0; 32])] in
+  let t1 := (t0 ++ data_copies rho qos)%list in
+  let res := exec 40 m (data_env rho ty fl len hl b) [] body_libwifi_parse_data in
+  if negb (ty =? 2) then
+    exists rho', res = Returned (Some (-22)) rho' t0 /\ rho' "data->body" = 0 /\ rho' "data->body_len" = 0
+  else if n =? 0 then
+    exists rho', res = Returned (Some 0) rho' t1 /\ rho' "data->body" = 0 /\ rho' "data->body_len" = 0
+  else if q =? 0 then
+    exists rho', res = Returned (Some (-12)) rho' (t1 ++ [("malloc", [n])])%list /\ rho' "data->body" = 0 /\ rho' "data->body_len" = n
+  else
+    exists rho', res = Returned (Some 0) rho' (t1 ++ [("malloc", [n]); ("memcpy", [q; b; n])])%list /\
+                 rho' "data->body" = q /\ rho' "data->body_len" = n.
+Proof. exact code_parse_data. Qed.
+Print Assumptions c01_code_parse_data.
+
+(* the same run against the model *)
+Theorem c01_code_parse_data_refines_model : forall (f : Frame.frame) rho b q m,
+  let ty := Frame.fc_type (Frame.f_fc f) in
+  0 <= ty < 2 ^ 31 -> 0 <= Frame.f_flags f < 65536 -> 0 <= Frame.f_header_len f <= Frame.f_len f -> Frame.f_len f < 2 ^ 64 ->
+  0 <= b < 2 ^ 64 -> rho "ret:malloc" = q -> 0 <= q < 2 ^ 64 ->
+  let res := exec 40 m (data_env rho ty (Frame.f_flags f) (Frame.f_len f) (Frame.f_header_len f) b) [] body_libwifi_parse_data in
+  let t0 := [("memset", [wrap u64 (rho "data"); 0; 32])] in
+  match Frame.parse_data f with
+  | Err c => c = -22 /\ exists rho', res = Returned (Some c) rho' t0
+  | Ok d =>
+      let n := Frame.d_body_len d in
+      let qos := negb (Z.land (Frame.f_flags f) Consts.c_LIBWIFI_FLAGS_IS_QOS =? 0) in
+      exists rho',
+        res = Returned (Some (if negb (n =? 0) && (q =? 0) then -12 else 0)) rho'
+                (t0 ++ data_copies rho qos ++
+                 (if n =? 0 then [] else ("malloc", [n]) :: (if q =? 0 then [] else [("memcpy", [q; b; n])])))%list /\
+        rho' "data->body_len" = n /\ rho' "data->body" = (if n =? 0 then 0 else q)
+  end.
+Proof. exact code_parse_data_refines_model. Qed.
+Print Assumptions c01_code_parse_data_refines_model.
+
